@@ -178,10 +178,13 @@ theorem stuck_parse {cap mc : Nat} (h24 : 24 ≤ cap) {F bs : Bytes}
   refine ⟨(run (run .header F mc).st ((run .header F mc).rem ++ bs) mc).out,
     (run (run .header F mc).st ((run .header F mc).rem ++ bs) mc).rem, ?_, ?_, ?_⟩
   · simp only [track]
-    rw [hpar, if_pos]
     simp only at hnf hbig hle
-    simp only [hnf, Bool.not_false, Bool.true_and, beq_iff_eq]
-    omega
+    have hc : (!(run (run .header F mc).st ((run .header F mc).rem ++ bs) mc).st.isFinal &&
+        (run (run .header F mc).st ((run .header F mc).rem ++ bs) mc).rem.length == cap) = true := by
+      simp only [hnf, Bool.not_false, Bool.true_and, beq_iff_eq]
+      omega
+    rw [hpar]
+    simp only [hc, if_true]
   · simp only at hbig hle; omega
   · rw [hsplit]
 
@@ -189,15 +192,15 @@ theorem stuck_parse {cap mc : Nat} (h24 : 24 ≤ cap) {F bs : Bytes}
 
 /-- the request parser is in a fatal state; `write_all` of the last output is in progress; when it is
 through, the write log is `Lf` -/
-def WSt (Lf : Bytes) (c : Conn) : Prop :=
-  ∃ rp rest e, c.phase = .parseReq rp (.writing rest true) ∧ rp.state = .fatal e ∧ c.stop = false ∧
+def WSt (e : PErr) (Lf : Bytes) (c : Conn) : Prop :=
+  ∃ rp rest, c.phase = .parseReq rp (.writing rest true) ∧ rp.state = .fatal e ∧ c.stop = false ∧
     Ben c.env.tr ∧ c.env.tr.wlog ++ rest = Lf
 
-theorem wst_poll {Lf : Bytes} {c : Conn} (h : WSt Lf c) :
+theorem wst_poll {e : PErr} {Lf : Bytes} {c : Conn} (h : WSt e Lf c) :
     ∃ c' r, Halts 1 c c' r ∧ Frame c c' ∧
-      ((r = .pending ∧ WSt Lf c' ∧ c'.env.tr.woken = true ∧ ans c'.env.tr < ans c.env.tr) ∨
+      ((r = .pending ∧ WSt e Lf c' ∧ c'.env.tr.woken = true ∧ ans c'.env.tr < ans c.env.tr) ∨
        (r = .finished ∧ c'.phase = .finished ∧ c'.env.tr.wlog = Lf)) := by
-  obtain ⟨rp, rest, e, hph, hfat, hstop, hben, hlog⟩ := h
+  obtain ⟨rp, rest, hph, hfat, hstop, hben, hlog⟩ := h
   rcases hwa : writeAllLoop (rest.length + 1) rest c.env.tr with ⟨rest', t', res⟩
   obtain ⟨hts, hinp, ⟨dn, hd, hl⟩, hres⟩ := writeAllLoop_ben _ _ _ hben (Nat.lt_succ_self _) hwa
   rcases hres with ⟨rfl, rfl⟩ | ⟨rfl, hne, hwk, hans⟩
@@ -207,7 +210,7 @@ theorem wst_poll {Lf : Bytes} {c : Conn} (h : WSt Lf c) :
     rw [hl, ← hlog, hd, List.append_nil]
   · have hstep := step_writing_pending c rp rest true rest' t' hph hstop hwa
     refine ⟨_, .pending, Halts.now hstep, Frame.mk' c _ t' hts, Or.inl ⟨rfl, ?_, hwk, hans⟩⟩
-    refine ⟨rp, rest', e, rfl, hfat, hstop, hben.step hts, ?_⟩
+    refine ⟨rp, rest', rfl, hfat, hstop, hben.step hts, ?_⟩
     show t'.wlog ++ rest' = Lf
     rw [hl, ← hlog, hd, List.append_assoc]
 
@@ -225,7 +228,7 @@ structure SCtx (cap mc : Nat) (Wk W : Bytes) (O : Bytes) : Prop where
 
 /-- the stage: still parsing (inside `Wk`, not stuck), or already in the final write -/
 def SSt (cap mc : Nat) (Wk W L0 O : Bytes) (c : Conn) : Prop :=
-  (∃ F, PSt cap mc W L0 [] c F ∧ NonStuck cap mc F ∧ F <+: Wk) ∨ WSt (L0 ++ O) c
+  (∃ F, PSt cap mc W L0 [] c F ∧ NonStuck cap mc F ∧ F <+: Wk) ∨ WSt .stuckOnInput (L0 ++ O) c
 
 def SFOut (cap mc : Nat) (Wk W L0 O : Bytes) (c c' : Conn) (r : PRes) : Prop :=
   (r = .pending ∧ SSt cap mc Wk W L0 O c' ∧ c'.env.tr.woken = true ∧ ans c'.env.tr < ans c.env.tr) ∨
@@ -277,10 +280,10 @@ theorem stuck_poll {cap mc : Nat} {Wk W L0 O : Bytes} (K : SCtx cap mc Wk W O) {
         have : ¬ (run .header (F1 ++ bs) mc).rem.length < cap := fun h => hns (Or.inr h)
         omega
       have hO := K.out _ hq hbig
-      have hw : WSt (L0 ++ O) { c1 with
+      have hw : WSt .stuckOnInput (L0 ++ O) { c1 with
           phase := .parseReq ⟨cap, rem', .fatal .stuckOnInput, mc⟩ (.writing o true),
           env := { c1.env with tr := t } } :=
-        ⟨_, o, .stuckOnInput, rfl, rfl, hstop, hben.step hts, by
+        ⟨_, o, rfl, rfl, hstop, hben.step hts, by
           show t.wlog ++ o = _
           rw [hwl, hlog, List.append_assoc, ← hout, hO]⟩
       obtain ⟨c', r, hh, hfr2, ho⟩ := wst_poll hw
@@ -299,5 +302,114 @@ theorem stuck_poll {cap mc : Nat} {Wk W L0 O : Bytes} (K : SCtx cap mc Wk W O) {
     rcases ho with ⟨rfl, h1, h2, h3⟩ | ⟨rfl, h1, h2⟩
     · exact Or.inl ⟨rfl, Or.inr h1, h2, h3⟩
     · exact Or.inr ⟨rfl, h1, h2⟩
+
+theorem WSt.cong {e : PErr} {Lf : Bytes} {c c' : Conn} (h : WSt e Lf c) (hph : c'.phase = c.phase) (hstop : c'.stop = c.stop)
+    (hs : TrSame c.env.tr c'.env.tr) : WSt e Lf c' := by
+  obtain ⟨rp, rest, h1, h2, h3, h4, h5⟩ := h
+  exact ⟨rp, rest, hph.trans h1, h2, hstop.trans h3, hs.ben h4, by rw [hs.wlog]; exact h5⟩
+
+theorem SSt.cong {cap mc : Nat} {Wk W L0 O : Bytes} {c c' : Conn} (h : SSt cap mc Wk W L0 O c)
+    (hph : c'.phase = c.phase) (hstop : c'.stop = c.stop) (hs : TrSame c.env.tr c'.env.tr) :
+    SSt cap mc Wk W L0 O c' := by
+  rcases h with ⟨F, h1, h2, h3⟩ | h
+  · exact Or.inl ⟨F, h1.cong hph hstop hs, h2, h3⟩
+  · exact Or.inr (h.cong hph hstop hs)
+
+theorem SSt.stop {cap mc : Nat} {Wk W L0 O : Bytes} {c : Conn} (h : SSt cap mc Wk W L0 O c) : c.stop = false := by
+  rcases h with ⟨F, h1, _, _⟩ | ⟨_, _, _, _, h3, _, _⟩
+  · exact h1.stop
+  · exact h3
+
+theorem stuck_run {cap mc : Nat} {Wk W L0 O : Bytes} (K : SCtx cap mc Wk W O) :
+    ∀ (A : Nat) (c : Conn) (n fuel : Nat),
+      SSt cap mc Wk W L0 O c → c.env.segs = [] → ans c.env.tr ≤ A → A + 1 ≤ fuel →
+      2 * c.env.tr.input.length + 5 ≤ 100000 →
+      ∃ c', runTask fuel c n none = (c', "RET") ∧
+        FFin L0 O (hsCount c.env.tr.events) c' ∧ c'.scripts = c.scripts := by
+  intro A
+  induction A with
+  | zero =>
+    intro c n fuel hst hsegs hA hf hlen
+    obtain ⟨f, rfl⟩ : ∃ f, fuel = f + 1 := ⟨fuel - 1, by omega⟩
+    obtain ⟨hsame, hph, hsc, hstop, hmx, hsg, hwk⟩ := prePoll_same c n hsegs
+    have hst0 := hst.cong hph hstop hsame
+    obtain ⟨c', r, hh, hfr, ho⟩ := stuck_poll K hst0
+    have hpoll := hh.pollT (by rw [hsame.input]; exact hlen)
+    have hans0 : ans (prePoll c n none).env.tr = ans c.env.tr := by unfold ans; rw [hsame.rd, hsame.wr]
+    rw [runTask_succ, hpoll]
+    rcases ho with ⟨rfl, _, _, ha⟩ | ⟨rfl, h1, h2⟩
+    · omega
+    · exact ⟨c', rfl, ⟨h1, h2, hfr.ts.hs.trans hsame.hs, hfr.stop.trans (hstop.trans hst.stop)⟩,
+        hfr.scripts.trans hsc⟩
+  | succ A ih =>
+    intro c n fuel hst hsegs hA hf hlen
+    obtain ⟨f, rfl⟩ : ∃ f, fuel = f + 1 := ⟨fuel - 1, by omega⟩
+    obtain ⟨hsame, hph, hsc, hstop, hmx, hsg, hwk⟩ := prePoll_same c n hsegs
+    have hst0 := hst.cong hph hstop hsame
+    obtain ⟨c', r, hh, hfr, ho⟩ := stuck_poll K hst0
+    have hpoll := hh.pollT (by rw [hsame.input]; exact hlen)
+    have hans0 : ans (prePoll c n none).env.tr = ans c.env.tr := by unfold ans; rw [hsame.rd, hsame.wr]
+    rw [runTask_succ, hpoll]
+    rcases ho with ⟨rfl, hst', hw, ha⟩ | ⟨rfl, h1, h2⟩
+    · simp only [hw, if_true]
+      have hlen' : 2 * c'.env.tr.input.length + 5 ≤ 100000 := by
+        have := hfr.ts.tle.input_len
+        rw [hsame.input] at this
+        omega
+      obtain ⟨c2, h1, h2, h3⟩ := ih c' (n + 1) f hst' (hfr.segs.trans hsg) (by omega) (by omega) hlen'
+      refine ⟨c2, h1, ?_, h3.trans (hfr.scripts.trans hsc)⟩
+      have he : hsCount c'.env.tr.events = hsCount c.env.tr.events := hfr.ts.hs.trans hsame.hs
+      rw [← he]; exact h2
+    · exact ⟨c', rfl, ⟨h1, h2, hfr.ts.hs.trans hsame.hs, hfr.stop.trans (hstop.trans hst.stop)⟩,
+        hfr.scripts.trans hsc⟩
+
+/-- **The executor started in front of `parse_request`**, the wire `W` in the transport. -/
+theorem stuck_run_start {cap mc : Nat} {Wk W O : Bytes} (K : SCtx cap mc Wk W O) {c : Conn} {n fuel : Nat}
+    (hph : c.phase = .parseReq ⟨cap, [], .header, mc⟩ .start) (hstop : c.stop = false)
+    (hinp : c.env.tr.input = W) (hb : Ben c.env.tr)
+    (hsegs : c.env.segs = []) (hf : ans c.env.tr + 1 ≤ fuel) (hlen : 2 * c.env.tr.input.length + 6 ≤ 100000) :
+    ∃ c', runTask fuel c n none = (c', "RET") ∧
+      FFin c.env.tr.wlog O (hsCount c.env.tr.events) c' ∧ c'.scripts = c.scripts := by
+  obtain ⟨f, rfl⟩ : ∃ f, fuel = f + 1 := ⟨fuel - 1, by omega⟩
+  obtain ⟨hsame, hph0, hsc, hstop0, hmx, hsg, hwk⟩ := prePoll_same c n hsegs
+  rw [runTask_succ]
+  generalize prePoll c n none = c0 at *
+  have hstop1 : c0.stop = false := hstop0.trans hstop
+  have hrun0 : (run .header [] mc).rem.length = 0 := by
+    have := (run_ok [] mc (st := .header) trivial).2.2.length_le
+    simp only [List.length_nil] at this; omega
+  have hns0 : NonStuck cap mc [] := Or.inr (by have := K.cap24; omega)
+  have hstart := start_track K.cap24 (raw := []) (Nat.zero_le _) hns0
+  have hstep := step_start c0 _ (hph0.trans hph) hstop1
+  rw [hstart] at hstep
+  have hstep' : stepConn c0 = .next (mkC c0 (.parseReq (track cap mc [])
+      (.writing (run .header [] mc).out (run .header [] mc).st.isFinal)) c0.env.tr) := hstep
+  have hst : PSt cap mc W c.env.tr.wlog [] (mkC c0 (.parseReq (track cap mc [])
+      (.writing (run .header [] mc).out (run .header [] mc).st.isFinal)) c0.env.tr) [] :=
+    ⟨by show [] ++ c0.env.tr.input ++ [] = W
+        rw [hsame.input, hinp, List.nil_append, List.append_nil],
+      hstop1, hsame.ben hb, by omega, Or.inr ⟨_, rfl, by show c0.env.tr.wlog ++ _ = _; rw [hsame.wlog], [], rfl⟩⟩
+  obtain ⟨c', r, hh, hfr, ho⟩ := stuck_poll (L0 := c.env.tr.wlog) K (Or.inl ⟨[], hst, hns0, List.nil_prefix⟩)
+  have hh' := Halts.of_steps (Steps.one hstep') hh
+  have hpoll := hh'.pollT (by
+    show 1 + (2 * c0.env.tr.input.length + 5) ≤ 100000
+    rw [hsame.input]; omega)
+  have hans0 : ans c0.env.tr = ans c.env.tr := by unfold ans; rw [hsame.rd, hsame.wr]
+  have hts : TStep c0.env.tr c'.env.tr := hfr.ts
+  have hhs : hsCount c'.env.tr.events = hsCount c.env.tr.events := hts.hs.trans hsame.hs
+  have hsc' : c'.scripts = c.scripts := hfr.scripts.trans hsc
+  rw [hpoll]
+  rcases ho with ⟨rfl, hst', hw, ha⟩ | ⟨rfl, h1, h2⟩
+  · simp only [hw, if_true]
+    have hlen' : 2 * c'.env.tr.input.length + 5 ≤ 100000 := by
+      have := hts.tle.input_len
+      rw [hsame.input] at this
+      omega
+    have ha' : ans c'.env.tr < ans c0.env.tr := ha
+    obtain ⟨c2, h1, h2, h3⟩ := stuck_run K (ans c'.env.tr) c' (n + 1) f hst'
+      (hfr.segs.trans hsg) (Nat.le_refl _) (by omega) hlen'
+    refine ⟨c2, h1, ?_, h3.trans hsc'⟩
+    rw [← hhs]; exact h2
+  · exact ⟨c', rfl, ⟨h1, h2, hhs, hfr.stop.trans hstop1⟩, hsc'⟩
 
 end Fcgi.C06E
